@@ -172,6 +172,40 @@ CHECKS.append(
      "note": "Trusted: TLC; the grid decoding k/1024 -> float; the fixed-point encoding of inputs and results. Inputs on a dyadic grid with |x| <= 40; formula agreement for "
              "biweights and Qn at n <= 60. Not claimed: Kaiser/Savitzky-Golay coefficients, mode formula. Weighted S-G with positive weights only; weighted estimators rescaled "
              "by positive factors only. The mode's translation clause admits the mirror image on mirror-symmetric data. MC runs without -coverage."})
+CHECKS.append(
+    {"id": "C14", "level": "model_checking",
+     "technique": "TLA+ spec (Segfilters.tla) + TLC exhaustive small scope replayed into cnvlib.segfilters / do_call + TLC trace validation of random runs with every filter application recorded",
+     "design_ref": "DESIGN.md section 8 C14, 13",
+     "text": "TLC enumerates every segment table of the small scopes x every direct filter and every admissible ordered filter list, checks the modelled algorithm "
+             "(enumerate_changes / squash_by_groups / squash_region / do_call ordering) against the run-and-conservation statement, and every state is replayed into the real "
+             "code; each filter application inside do_call is recorded and judged by TLC (maximal level runs, first start to last end, summed probes/weight, weight-averaged "
+             "log2 to 1.25e-8, totals and spans conserved, ampdel keeps only cn=0 / cn>=5 runs, ci/sem before calling and the rest in the order given).",
+     "note": "Calling is uninterpreted (C01/C02). Premises: sorted disjoint rows, ci_lo<=ci_hi, sem>=0, cn1/cn2 missing together, log2=+-1.96*sem only with sem a power of "
+             "two. A missing cn1/cn2 may be read as its own level or as compatible; extra cuts at allele-specific changes are allowed for ci/sem/ampdel. Trusted: TLC, harness "
+             "encoding to scaled integers, the recording wrappers."})
+CHECKS.append(
+    {"id": "C03", "level": "model_checking",
+     "technique": "TLA+ spec (Segments.tla, segmentation kernel uninterpreted) + TLC exhaustive small scope replayed into do_segmentation with the kernel forced to the enumerated breakpoints + TLC trace validation of seeded real runs",
+     "design_ref": "DESIGN.md section 8 C03, 13",
+     "text": "TLC enumerates every small bin table x filtered-bin set x breakpoint set x method with by_arm's constants scaled down, checks the modelled orchestration (by_arm, "
+             "filters, breakpoints->segments, run squashing, endpoint stretch, gene/weight/depth aggregation) against the tiling/accounting clauses, and every state is replayed "
+             "into the real code; seeded tables (1..400 bins x 1..6 chromosomes, gaps at the by_arm margins, filtered edge bins) run through the unmodified do_segmentation for "
+             "none/haar/hmm* x filters x 1/2/3/16 processes with the surviving bins recorded at the kernel's entry; TLC judges every record with exact limb arithmetic.",
+     "note": "cbs/flasso not run (no R). haar's log2 not claimed. HMM records need an autosomal survivor and a non-zero robust spread. Direction 1 replaces haar.UnifyLevels / "
+             "hmm.hmm_get_model and by_arm's defaults; direction 2 runs the code unmodified. Trusted: TLC, grid encoding, wrapper-based recording."})
+CHECKS.append(
+    {"id": "C05", "level": "model_checking",
+     "technique": "TLA+ spec (Reference.tla on Stats.tla/Num.tla/Karyotype.tla: centring, sex shift, per-bin column with neutral pseudo-sample, biweight location/midvariance in 12-digit fixed point, bin identity, flat reference, gc/rmask character counts) + TLC exhaustive small scopes replayed through real .cnn/BED/FASTA files into do_reference / do_reference_flat + TLC trace validation of seeded cohorts with the package's own estimator and sex-inference calls logged",
+     "design_ref": "DESIGN.md section 8 C05, 8.1, 9, 13",
+     "text": "TLC enumerates small cohorts (samples x sex x reference sex x given/inferred x no/empty/real antitargets), every kind of bin mismatch, flat references over every "
+             "chromosome-class subset and every sequence of <= 4/5 characters; the modelled reference.py (A-layer) is checked against the statement (P-layer) and every state is "
+             "replayed through real files; seeded cohorts of 1..8 samples (depth scales, dyadic noise, namings, corrections off/on) are judged the same way: exact bins, rejection "
+             "of mismatching files, per-bin log2/spread = logged biweight calls on the specified column (bit-exact) and = the published formulas (1e-6), depth-only => profile "
+             "and spread 0, chrX/chrY levels by reference sex, gc/rmask fractions.",
+     "note": "Trusted: TLC, harness file writers, pyfaidx, IEEE-bit and 12-digit encoders, record-only wrappers. Corrections on: consequence clauses only, under a checked "
+             "composition premise (non-autosomal bins <= wing/2 per kind of file, ~2.5%). Inference claimed only with >= 40 chrX bins, 3x autosomal bins, noise <= 1/4. Estimator "
+             "clauses on references <= 64 bins. P-layer accepts either skip_low reading and any sample order (changes there show as MODEL-DRIFT); rmask denominator either "
+             "unambiguous bases or all characters. No PAR, no do_cluster."})
 
 _ALL = [f"C{n:02d}" for n in range(1, 21)]
 _claimed = {c["id"] for c in CHECKS}
